@@ -80,7 +80,10 @@ def derive_model_fields(program, ctx, rid, prop=P):
     return fields
 
 
-def _hex_pred(item):
+LOWERHEX = set("0123456789abcdef")
+
+
+def _hex_pred(item, lower_only=False):
     def pred(expr, pol):
         # not any(ch not in "<hex>" for ch in item)   /   all(ch in "<hex>" for ch in item)
         if isinstance(expr, ast.Call) and call_name(expr) in ("any", "all") and expr.args and isinstance(expr.args[0], ast.GeneratorExp):
@@ -93,17 +96,21 @@ def _hex_pred(item):
                 alphabet = set(t.comparators[0].value)
                 if not alphabet or not alphabet <= HEXCHARS:
                     return False
+                if lower_only and not alphabet <= LOWERHEX:
+                    return False
                 if call_name(expr) == "any" and isinstance(t.ops[0], ast.NotIn):
                     return not pol
                 if call_name(expr) == "all" and isinstance(t.ops[0], ast.In):
                     return pol
         if isinstance(expr, ast.Call) and call_name(expr).endswith("fullmatch") and expr.args and isinstance(expr.args[0], ast.Constant):
+            if lower_only and "A-F" in str(expr.args[0].value):
+                return False
             return pol and bool(re.fullmatch(r"\[0-9a-f(A-F)?\]([+*]|\{\d+(,\d*)?\})", str(expr.args[0].value)))
         return False
     return pred
 
 
-def _ids_are_hex_ok(program, ctx, rid, prop) -> bool:
+def _ids_are_hex_ok(program, ctx, rid, prop, lower=False) -> bool:
     """the validator returns only items whose every character passed a hex-only alphabet test.
     Two shapes are read: a loop that appends checked items, or a comprehension mapping a per-item function over the ids."""
     fn = program.func("nostr_relay.storage.base:ids_are_hex")
@@ -115,12 +122,12 @@ def _ids_are_hex_ok(program, ctx, rid, prop) -> bool:
             g = program.func_opt(f"{fn._module.name}:{v.elt.func.id}")
             tgt = v.generators[0].target
             if g is not None and isinstance(tgt, ast.Name) and len(v.elt.args) == 1 and dotted(v.elt.args[0]) == tgt.id and dotted(v.generators[0].iter) == fn.args.args[0].arg:
-                return _per_item_ok(program, ctx, rid, prop, g, g.args.args[0].arg, mode="return")
+                return _per_item_ok(program, ctx, rid, prop, g, g.args.args[0].arg, mode="return", lower=lower)
     loop = next((n for n in walk_no_nested(fn) if isinstance(n, ast.For)), None)
     if loop is None or not isinstance(loop.target, ast.Name):
         ctx.bad(finding_func(prop, rid, fn, "ids_are_hex no longer checks each id", text="def ids_are_hex(...)"))
         return False
-    okv = _per_item_ok(program, ctx, rid, prop, fn, loop.target.id, mode="append")
+    okv = _per_item_ok(program, ctx, rid, prop, fn, loop.target.id, mode="append", lower=lower)
     lists = {c.func.value.id for c in ast.walk(fn) if isinstance(c, ast.Call) and isinstance(c.func, ast.Attribute) and c.func.attr == "append" and isinstance(c.func.value, ast.Name)}
     if not rets or any(not (isinstance(r.value, ast.Name) and r.value.id in lists) for r in rets):
         okv = False
@@ -128,7 +135,7 @@ def _ids_are_hex_ok(program, ctx, rid, prop) -> bool:
     return okv
 
 
-def _per_item_ok(program, ctx, rid, prop, fn, item, mode) -> bool:
+def _per_item_ok(program, ctx, rid, prop, fn, item, mode, lower=False) -> bool:
     cfg = cfg_of(fn)
     # the item may be re-bound only by case folding (the alias keeps the mark)
     items = {item}
@@ -165,6 +172,18 @@ def _per_item_ok(program, ctx, rid, prop, fn, item, mode) -> bool:
         elif must_pass(cfg, passes, [a]):
             good = False
             ctx.bad(finding_at(prop, rid, st, "an id is accepted without every character having been tested against a hex-only alphabet"))
+        elif lower:
+            # the id handed on is lower-case: it passed a lower-case-only alphabet test, or it was bound by .lower() on every path
+            strict = {}
+            for it in items:
+                for n, e in test_edges(cfg, _hex_pred(it, lower_only=True)).items():
+                    strict.setdefault(n, set()).update(e)
+            lowered = cfg.stmt_nodes(lambda s, v=v: isinstance(s, ast.Assign) and isinstance(s.targets[0], ast.Name) and s.targets[0].id == v.id and isinstance(s.value, ast.Call)
+                                     and isinstance(s.value.func, ast.Attribute) and s.value.func.attr == "lower" and dotted(s.value.func.value) in items, kinds=("stmt",))
+            if must_pass(cfg, strict, [a]) and cfg.find_path([cfg.entry], [a], avoid_nodes=lowered):
+                good = False
+                ctx.bad(finding_at(prop, rid, st, "an id is accepted in the client's letter case (neither lower()ed nor tested against a lower-case-only alphabet): the live matcher compares "
+                                   "ids/authors case-sensitively with the canonical lower-case event fields, the stored query does not - live and stored matching disagree", text="case"))
     if good:
         ctx.ok(rid, fn, f"{fn.name}: every accepted id passed the hex-alphabet test")
     return good
